@@ -223,6 +223,8 @@ def bookkeeping_rule(ctx, R4, keys):
 def must_follow(ctx):
     prog = ctx.prog
     R4 = ctx.rule("R4", "success paths refresh the matching fingerprints and save; key change at load keeps the old key; past_keys is append-only")
+    from .http_common import keyed_endpoint_update_rule
+    keyed_endpoint_update_rule(ctx, R4)
     bookkeeping_rule(ctx, R4, (REG, UPC, UPK))
     # hash updaters write the like-named field from the right source
     for fn, fld, src in (("update_key_hash", "key_hash", "hash_key"), ("update_contacts_hash", "contacts_hash", "hash_contacts"), ("update_external_account_hash", "external_account_hash", "hash_external_account")):
